@@ -30,8 +30,14 @@ K04 = [
     Skeleton("i07_nested_call_args", {"main.py": "def {0}({1}, {2}):\n    return {1} - {2}\n{3} = 1\n{4} = 2\nprint({0}({0}({3}, {4}), {2}={3}))\n"}),
     Skeleton("i09_variable_parenthesised", {"main.py": "def fun({0}):\n    {1} = ({0} + 1)\n    {2} = [{1} * 2, {0}]\n    return {2} + [{1}]\nprint(fun(1))\n"}),
     Skeleton("i10_from_import_several_names", {"mod1.py": "{0} = 3\ndef {1}({2}):\n    return {2} + {0}\ndef other():\n    return 7\n", "main.py": "from mod1 import {1}, other\n{3} = 2\nprint({1}({3}), other())\n", "user2.py": "from mod1 import other, {1}\nval = {1}(1) + other()\n"}, entry="main.py"),
+    Skeleton("i11_call_on_continuation_line", {"main.py": "def {0}({1}):\n    {2} = {1} * 2\n    return {2}\n{3} = [\n    1,\n        {0}(3),\n]\nprint({3})\n"}),
     Skeleton("i08_method_dotted_receiver", {"main.py": "class Inner:\n    def __init__(self):\n        self.val = 3\n    def {0}(self, {1}, {2}=1):\n        return [self.val, {1}, {2}]\nclass Holder:\n    def __init__(self):\n        self.inner = Inner()\n{3} = Holder()\nprint({3}.inner.{0}(4), {3}.inner.{0}(5, {2}=6))\n"}),
 ]
+
+
+# slots that are parameters of the definition being inlined (offset on them = inline parameter)
+PARAM_SLOTS = {"i01_func_kw_default": {1, 2}, "i03_method": {1, 2}, "i04_two_modules": {1}, "i05_parameter": {0, 1}, "i06_multi_statement_body": {1},
+               "i07_nested_call_args": {1, 2}, "i08_method_dotted_receiver": {1, 2}, "i10_from_import_several_names": {2}}
 
 
 def instances(tier):
@@ -40,8 +46,13 @@ def instances(tier):
         if tier == "quick" and sk.name in ("i05_parameter", "i06_multi_statement_body", "i07_nested_call_args"):
             continue
         nocc = sum(len(re.findall(r"\{\d+\}", t)) for t in sk.files.values())
+        slots_by_q = [int(x) for t in sk.files.values() for x in re.findall(r"\{(\d+)\}", t)]
         for q in range(nocc):
             for mode in range(3):  # remove+all occurrences / keep+all / keep+only the current one
+                if mode and slots_by_q[q] in PARAM_SLOTS.get(sk.name, ()):
+                    continue  # inline-parameter takes no remove / only_current: the three modes are one request
+                if tier == "quick" and sk.name == "i01_func_kw_default" and q in (4, 5, 6, 9):
+                    continue  # quick: one occurrence per role (later reads of the same parameter / local / global)
                 out.append(("inline.%s.q%02d.m%d" % (sk.name, q, mode), dict(k=k, q=q, mode=mode)))
         if tier == "thorough":
             # two-letter spellings, one slot at a time, queried at that slot's first occurrence
